@@ -303,6 +303,8 @@ def _splice(repo: str) -> t.Dict[str, t.Any]:
         raise Untranslatable(ob, f"unsupported statement in the splice loop: {s[:80]!r}")
     if key is None or target is None:
         raise Untranslatable(ob, "lookup guard or replacement target not found")
+    if cond == "ifAbsent" and not any(isinstance(st, ast.Assign) and _u(st.targets[0]) == "expression_ctes" for st in loop.body):
+        raise Untranslatable(ob, "the set of CTE names already present is not recomputed for every view reference (it goes stale while CTEs are appended)")
     if cond is None or pos is None:
         cond = "never"  # the view's CTEs are not added to the statement
         pos = pos or "append"
